@@ -19,6 +19,15 @@ def addTransfer (restricted : Bool) (amount : Nat) (denom to contract : String) 
     (if amount = 0 then .err .panic else .ok (.transfer ⟨denom, amount⟩ to contract contract))
   else .ok (.bank to ⟨denom, amount⟩)
 
+/-- the pull-in of an escrowing request: one marker transfer from the sender when the
+    denomination is restricted (the attached funds otherwise) -/
+def pullR (env : Env) (d : String) (n : Nat) (sender : String) : Res (List Msg) :=
+  if env.restricted d then
+    (match transferMsg n d env.contract sender env.contract with
+     | .ok m => .ok [m]
+     | .err e => .err e)
+  else .ok []
+
 /-- funds rule shared by the three escrowing requests -/
 def fundsOk (restricted : Bool) (funds : List Coin) (c : Coin) : Bool :=
   if restricted then funds.isEmpty else decide (funds = [c])
@@ -151,10 +160,7 @@ def createAsk (env : Env) (s : State) (sender : String) (funds : List Coin)
   let attrs := [("action", "create_ask"), ("id", id), ("class", classJson cls),
                 ("target_base", info.baseDenom), ("base", base), ("quote", quote),
                 ("price", price), ("size", toString size)]
-  let msgs ← if restricted then (do
-        let m ← transferMsg size base env.contract sender env.contract
-        pure [m])
-      else pure []
+  let msgs ← pullR env base size sender
   pure ({ s with asks := s.asks.set id ask }, { msgs := msgs, attrs := attrs })
 
 def createBid (env : Env) (s : State) (sender : String) (funds : List Coin)
@@ -188,11 +194,7 @@ def createBid (env : Env) (s : State) (sender : String) (funds : List Coin)
                      id := id, owner := sender, price := price, quote := ⟨quote, quoteSize⟩ }
   let attrs := [("action", "create_bid"), ("base", base), ("id", id), ("price", price),
                 ("quote", quote), ("quote_size", toString quoteSize), ("size", toString size)]
-  let msgs ← if restricted then (do
-        let m ← transferMsg (quoteSize + (match fee with | some f => f.amount | none => 0))
-                  quote env.contract sender env.contract
-        pure [m])
-      else pure []
+  let msgs ← pullR env quote (quoteSize + (match fee with | some f => f.amount | none => 0)) sender
   pure ({ s with bids := s.bids.set id (.v3 bid) }, { msgs := msgs, attrs := attrs })
 
 def approveAsk (env : Env) (s : State) (sender : String) (funds : List Coin)
@@ -211,11 +213,18 @@ def approveAsk (env : Env) (s : State) (sender : String) (funds : List Coin)
   let ask' : Ask := { ask with cls := cls }
   let attrs := [("action", "approve_ask"), ("id", ask'.id), ("class", classJson cls),
                 ("quote", ask'.quote), ("price", ask'.price), ("size", toString ask'.size)]
-  let msgs ← if restricted then (do
-        let m ← transferMsg size base env.contract sender env.contract
-        pure [m])
-      else pure []
+  let msgs ← pullR env base size sender
   pure ({ s with asks := s.asks.set id ask' }, { msgs := msgs, attrs := attrs })
+
+/-- second leg of an ask reversal: the approver of an approved convertible ask gets
+    `amountOf conv` of the approver-supplied denomination back -/
+def approverLeg (env : Env) (cls : AskClass) (amountOf : Coin → Nat) : Res (List Msg) :=
+  match cls with
+  | .ready ap c =>
+    (match addTransfer (env.restricted c.denom) (amountOf c) c.denom ap env.contract with
+     | .ok m => .ok [m]
+     | .err e => .err e)
+  | _ => .ok []
 
 def cancelAsk (env : Env) (s : State) (sender : String) (funds : List Coin) (id : String) :
     Res (State × Response) := do
@@ -223,13 +232,23 @@ def cancelAsk (env : Env) (s : State) (sender : String) (funds : List Coin) (id 
   let ask ← orErr (s.asks.get? id) .loadFailed
   guardR (sender == ask.owner) .unauthorized
   let m1 ← addTransfer (env.restricted ask.base) ask.size ask.base ask.owner env.contract
-  let attrs := [("action", "cancel_ask"), ("id", ask.id)]
-  let ms ← match ask.cls with
-    | .ready ap c => do
-        let m2 ← addTransfer (env.restricted c.denom) c.amount c.denom ap env.contract
-        pure [m1, m2]
-    | _ => pure [m1]
-  pure ({ s with asks := s.asks.del ask.id }, { msgs := ms, attrs := attrs })
+  let m2 ← approverLeg env ask.cls (fun c => c.amount)
+  pure ({ s with asks := s.asks.del ask.id },
+        { msgs := m1 :: m2, attrs := [("action", "cancel_ask"), ("id", ask.id)] })
+
+/-- the ask after `eff` units were reversed or filled: the approver-supplied amount follows
+    the size -/
+def Ask.reduce (a : Ask) (eff : Nat) : Ask :=
+  { a with size := a.size - eff,
+           cls := match a.cls with
+             | .ready ap c => .ready ap ⟨c.denom, a.size - eff⟩
+             | c => c }
+
+/-- write back a reduced ask: removed when nothing remains -/
+def putAsk (asks : Book Ask) (key : String) (a : Ask) : Book Ask :=
+  if a.size == 0 then asks.del key else asks.set key a
+
+def openFlag (isOpen : Bool) : String := if isOpen then "true" else "false"
 
 /-- `reverse_ask` (expire: `cancel = none`; reject: requested size) -/
 def reverseAsk (env : Env) (s : State) (sender : String) (funds : List Coin) (id : String)
@@ -239,31 +258,52 @@ def reverseAsk (env : Env) (s : State) (sender : String) (funds : List Coin) (id
   let info := s.info
   guardR (memS sender info.executors) .unauthorized
   let ask ← orErr (s.asks.get? id) .loadFailed
-  let eff := match cancel with | none => ask.size | some c => c
+  let eff := cancel.getD ask.size
   guardR (cancel.isNone || info.increment != 0) .panic
   guardR (cancel.isNone || eff % info.increment == 0) .invalidFields
-  let newSize ← subR ask.size eff .invalidFields
-  let cls' : AskClass := match ask.cls with
-    | .ready ap c => .ready ap ⟨c.denom, newSize⟩
-    | c => c
-  let ask' : Ask := { ask with size := newSize, cls := cls' }
+  guardR (eff ≤ ask.size) .invalidFields
+  let ask' := ask.reduce eff
   let m1 ← addTransfer (env.restricted ask.base) eff ask.base ask.owner env.contract
-  let ms ← match cls' with
-    | .ready ap c => do
-        let m2 ← addTransfer (env.restricted c.denom) eff c.denom ap env.contract
-        pure [m1, m2]
-    | _ => pure [m1]
-  let attrs := [("action", action), ("id", id), ("reverse_size", toString eff)]
-  if newSize == 0 then
-    pure ({ s with asks := s.asks.del ask'.id },
-          { msgs := ms, attrs := attrs ++ [("order_open", "false")] })
-  else
-    pure ({ s with asks := s.asks.set ask'.id ask' },
-          { msgs := ms, attrs := attrs ++ [("order_open", "true")] })
+  let m2 ← approverLeg env ask'.cls (fun _ => eff)
+  pure ({ s with asks := putAsk s.asks ask'.id ask' },
+        { msgs := m1 :: m2,
+          attrs := [("action", action), ("id", id), ("reverse_size", toString eff),
+                    ("order_open", openFlag (ask'.size != 0))] })
 
 /-- `BidOrderV3::update_remaining_amounts` for all three actions -/
 def Bid.accumulate (b : Bid) (base quote fee : Nat) : Bid :=
   { b with accBase := b.accBase + base, accQuote := b.accQuote + quote, accFee := b.accFee + fee }
+
+/-- write back an updated bid: removed when no base remains -/
+def putBid (bids : Book BidEntry) (key : String) (b : Bid) : Book BidEntry :=
+  if b.base.amount - b.accBase == 0 then bids.del key else bids.set key (.v3 b)
+
+/-- fee needed for `left` unspent quote, with the refusals of the Rust call sites -/
+def feeNeed (b : Bid) (f : Coin) (left : Nat) : Res Nat :=
+  match Dec.feeFor f.amount b.quote.amount left with
+  | .ok n => .ok n
+  | .err .totalOverflow => .err .totalOverflow
+  | .err _ => .err .panic
+
+/-- fee handed back when `effQuote` of the unspent quote is cancelled (`none`: fee-less bid) -/
+def cancelFee (b : Bid) (effQuote : Nat) : Res (Option Nat) :=
+  match b.fee with
+  | some f => do
+      let remQ ← subR b.quote.amount b.accQuote .panic
+      let left ← subR remQ effQuote .panic
+      let need ← feeNeed b f left
+      let remF ← subR f.amount b.accFee .panic
+      let back ← subR remF need .invalidFields
+      pure (some back)
+  | none => .ok none
+
+/-- optional payout: nothing when the amount is zero -/
+def payIfPos (restricted : Bool) (amount : Nat) (denom to contract : String) : Res (List Msg) :=
+  if amount == 0 then .ok []
+  else
+    match addTransfer restricted amount denom to contract with
+    | .ok m => .ok [m]
+    | .err e => .err e
 
 /-- `reverse_bid` (cancel by owner, expire / reject by an executor) -/
 def reverseBid (env : Env) (s : State) (sender : String) (funds : List Coin) (id : String)
@@ -275,7 +315,7 @@ def reverseBid (env : Env) (s : State) (sender : String) (funds : List Coin) (id
   guardR (if action == "cancel_bid" then sender == bid.owner else memS sender info.executors)
     .unauthorized
   let remBase ← subR bid.base.amount bid.accBase .panic
-  let eff := match cancel with | none => remBase | some c => c
+  let eff := cancel.getD remBase
   guardR (cancel.isNone || info.increment != 0) .panic
   guardR (cancel.isNone || eff % info.increment == 0) .invalidFields
   guardR (eff ≤ remBase) .invalidFields
@@ -283,35 +323,15 @@ def reverseBid (env : Env) (s : State) (sender : String) (funds : List Coin) (id
   let tq ← Dec.total p eff
   guardR (!tq.hasFract) .nonIntegerTotal
   let effQuote ← orErr tq.toU128 .panic
-  let effFee : Option Nat ← match bid.fee with
-    | some f => do
-        let remQ ← subR bid.quote.amount bid.accQuote .panic
-        let left ← subR remQ effQuote .panic
-        let need ← match Dec.feeFor f.amount bid.quote.amount left with
-          | .ok n => pure n
-          | .err .totalOverflow => .err .totalOverflow
-          | .err _ => .err .panic
-        let remF ← subR f.amount bid.accFee .panic
-        let back ← subR remF need .invalidFields
-        pure (some back)
-    | none => pure none
+  let effFee ← cancelFee bid effQuote
   let restricted := env.restricted bid.quote.denom
   let bid' := bid.accumulate eff effQuote (effFee.getD 0)
   let m1 ← addTransfer restricted effQuote bid.quote.denom bid.owner env.contract
-  let ms ← match effFee with
-    | some fe =>
-      if fe > 0 then do
-        let m2 ← addTransfer restricted fe bid.quote.denom bid.owner env.contract
-        pure [m1, m2]
-      else pure [m1]
-    | none => pure [m1]
-  let attrs := [("action", action), ("id", id), ("reverse_size", toString eff)]
-  if bid'.base.amount - bid'.accBase == 0 then
-    pure ({ s with bids := s.bids.del bid'.id },
-          { msgs := ms, attrs := attrs ++ [("order_open", "false")] })
-  else
-    pure ({ s with bids := s.bids.set bid'.id (.v3 bid') },
-          { msgs := ms, attrs := attrs ++ [("order_open", "true")] })
+  let m2 ← payIfPos restricted (effFee.getD 0) bid.quote.denom bid.owner env.contract
+  pure ({ s with bids := putBid s.bids bid'.id bid' },
+        { msgs := m1 :: m2,
+          attrs := [("action", action), ("id", id), ("reverse_size", toString eff),
+                    ("order_open", openFlag (bid'.base.amount - bid'.accBase != 0))] })
 
 /-- `BidOrderV3::calculate_fee`: fee due when `gross` more quote is consumed (0 = `None`) -/
 def calcFee (b : Bid) (gross : Nat) : Res Nat :=
@@ -320,15 +340,70 @@ def calcFee (b : Bid) (gross : Nat) : Res Nat :=
   | some f => do
     let remQ ← subR b.quote.amount b.accQuote .panic
     let left ← subR remQ gross .panic
-    let need ← match Dec.feeFor f.amount b.quote.amount left with
-      | .ok n => pure n
-      | .err .totalOverflow => .err .totalOverflow
-      | .err _ => .err .panic
+    let need ← feeNeed b f left
     let remF ← subR f.amount b.accFee .panic
     subR remF need .bidFeeInsufficient
 
-def optMsg (cond : Bool) (m : Res Msg) : Res (List Msg) :=
-  if cond then (do let x ← m; pure [x]) else pure []
+/-- the execution-price rule -/
+def priceRule (askP bidP execP : Dec) : Res Unit :=
+  if Dec.lt askP bidP then
+    guardR (Dec.eqv execP askP || Dec.eqv execP bidP) .invalidExecutePrice
+  else if Dec.eqv askP bidP then
+    guardR (Dec.eqv execP askP) .invalidExecutePrice
+  else
+    .err .askBidPriceMismatch
+
+/-- ask fee of a match: the configured rate times the gross proceeds (0 when no fee) -/
+def askFeeAmt (info : Info) (grossD : Dec) : Res Nat :=
+  match info.askFee with
+  | some fi =>
+    (match Dec.parse fi.rate with
+     | some r => Dec.rateFee r grossD
+     | none => .err .invalidFields)
+  | none => .ok 0
+
+def askFeeMsgs (env : Env) (info : Info) (rQ : Bool) (askFee : Nat) (qd : String) : Res (List Msg) :=
+  match info.askFee with
+  | some fi => payIfPos rQ askFee qd fi.account env.contract
+  | none => .ok []
+
+def bidFeeMsgs (env : Env) (info : Info) (bid : Bid) (rQ : Bool) (bidFee : Nat) : Res (List Msg) :=
+  if bidFee == 0 then .ok []
+  else
+    match info.bidFee with
+    | none => .err .bidFeeAccountMissing
+    | some fi => payIfPos rQ bidFee ((bid.fee.map (·.denom)).getD bid.quote.denom) fi.account env.contract
+
+/-- routing by class: base to the buyer, net proceeds to the selling side -/
+def classMsgs (env : Env) (ask' : Ask) (bid : Bid) (rB rQ : Bool) (net size : Nat) : Res (List Msg) :=
+  match ask'.cls with
+  | .basic => do
+      let a ← payIfPos rQ net bid.quote.denom ask'.owner env.contract
+      let b ← addTransfer rB size ask'.base bid.owner env.contract
+      pure (a ++ [b])
+  | .ready ap c => do
+      let a ← addTransfer (env.restricted c.denom) size c.denom bid.owner env.contract
+      let b ← addTransfer rB size ask'.base ap env.contract
+      let d ← payIfPos rQ net bid.quote.denom ap env.contract
+      pure ([a, b] ++ d)
+  | .pending => .err .askNotReady
+
+/-- refund at an improved price: the unneeded quote and its share of the fee -/
+def refundPart (env : Env) (bid : Bid) (improved : Bool) (bidP : Dec) (size gross bidFee : Nat)
+    (rQ : Bool) : Res (List Msg × Bid) :=
+  if improved then do
+    let origD ← Dec.total bidP size
+    guardR (!origD.hasFract) .nonIntegerTotal
+    let orig ← orErr origD.toU128 .totalOverflow
+    let refund ← subR orig gross .nonIntegerTotal
+    let origFee ← calcFee bid orig
+    let feeRefund ← (if origFee != 0 then subR origFee bidFee .panic else .ok 0)
+    let a ← payIfPos rQ refund bid.quote.denom bid.owner env.contract
+    let b ← (if refund != 0 then
+               payIfPos rQ feeRefund ((bid.fee.map (·.denom)).getD bid.quote.denom) bid.owner env.contract
+             else .ok [])
+    pure (a ++ b, (bid.accumulate size gross bidFee).accumulate 0 refund feeRefund)
+  else .ok ([], bid.accumulate size gross bidFee)
 
 def executeMatch (env : Env) (s : State) (sender : String) (funds : List Coin)
     (askId bidId price : String) (size : Nat) : Res (State × Response) := do
@@ -341,82 +416,28 @@ def executeMatch (env : Env) (s : State) (sender : String) (funds : List Coin)
   let askP ← orErr (Dec.parse ask.price) .invalidFields
   let bidP ← orErr (Dec.parse bid.price) .invalidFields
   let execP ← orErr (Dec.parse price) .invalidFields
-  if Dec.lt askP bidP then
-    guardR (Dec.eqv execP askP || Dec.eqv execP bidP) .invalidExecutePrice
-  else if Dec.eqv askP bidP then
-    guardR (Dec.eqv execP askP) .invalidExecutePrice
-  else
-    .err .askBidPriceMismatch
+  priceRule askP bidP execP
   let remBase ← subR bid.base.amount bid.accBase .panic
   guardR (size ≤ ask.size && size ≤ remBase) .invalidExecuteSize
   let grossD ← Dec.total execP size
   guardR (!grossD.hasFract) .nonIntegerTotal
   let gross ← orErr grossD.toU128 .totalOverflow
-  let newSize := ask.size - size
-  let cls' : AskClass := match ask.cls with
-    | .ready ap c => .ready ap ⟨c.denom, newSize⟩
-    | c => c
-  let ask' : Ask := { ask with size := newSize, cls := cls' }
+  let ask' := ask.reduce size
   let rB := env.restricted ask.base
   let rQ := env.restricted bid.quote.denom
-  let qd := bid.quote.denom
-  -- ask fee
-  let askFee ← match info.askFee with
-    | some fi => do
-        let r ← orErr (Dec.parse fi.rate) .invalidFields
-        Dec.rateFee r grossD
-    | none => pure 0
-  let askFeeMsgs ← match info.askFee with
-    | some fi => optMsg (askFee != 0) (addTransfer rQ askFee qd fi.account env.contract)
-    | none => pure []
+  let askFee ← askFeeAmt info grossD
+  let m1 ← askFeeMsgs env info rQ askFee bid.quote.denom
   let net ← subR gross askFee .std
-  -- bid fee
   let bidFee ← calcFee bid gross
-  let bidFeeMsgs ← if bidFee != 0 then
-      (match info.bidFee, bid.fee with
-       | some fi, some f => do
-           let m ← addTransfer rQ bidFee f.denom fi.account env.contract
-           pure [m]
-       | none, _ => .err .bidFeeAccountMissing
-       | _, none => pure [])
-    else pure []
-  -- routing by class
-  let classMsgs ← match cls' with
-    | .basic => do
-        let a ← optMsg (net != 0) (addTransfer rQ net qd ask.owner env.contract)
-        let b ← addTransfer rB size ask.base bid.owner env.contract
-        pure (a ++ [b])
-    | .ready ap c => do
-        let a ← addTransfer (env.restricted c.denom) size c.denom bid.owner env.contract
-        let b ← addTransfer rB size ask.base ap env.contract
-        let d ← optMsg (net != 0) (addTransfer rQ net qd ap env.contract)
-        pure ([a, b] ++ d)
-    | .pending => .err .askNotReady
-  -- refund at an improved price
-  let (refundMsgs, bid') ← if Dec.lt execP bidP then (do
-      let origD ← Dec.total bidP size
-      guardR (!origD.hasFract) .nonIntegerTotal
-      let orig ← orErr origD.toU128 .totalOverflow
-      let refund ← subR orig gross .nonIntegerTotal
-      let origFee ← calcFee bid orig
-      let feeRefund ← if origFee != 0 then subR origFee bidFee .panic else pure 0
-      let ms ← if refund > 0 then (do
-          let a ← addTransfer rQ refund qd bid.owner env.contract
-          let b ← optMsg (feeRefund != 0)
-                    (addTransfer rQ feeRefund ((bid.fee.map (·.denom)).getD qd) bid.owner env.contract)
-          pure ([a] ++ b))
-        else pure []
-      pure (ms, (bid.accumulate size gross bidFee).accumulate 0 refund feeRefund))
-    else pure ([], bid.accumulate size gross bidFee)
-  let attrs := [("action", "execute"), ("ask_id", askId), ("bid_id", bidId),
-                ("base", bid.base.denom), ("quote", ask.quote), ("price", price),
-                ("size", toString size), ("ask_fee", toString askFee),
-                ("bid_fee", toString bidFee)]
-  let asks' := if newSize == 0 then s.asks.del askId else s.asks.set askId ask'
-  let bids' := if bid'.base.amount - bid'.accBase == 0 then s.bids.del bidId
-               else s.bids.set bidId (.v3 bid')
-  pure ({ s with asks := asks', bids := bids' },
-        { msgs := askFeeMsgs ++ bidFeeMsgs ++ classMsgs ++ refundMsgs, attrs := attrs })
+  let m2 ← bidFeeMsgs env info bid rQ bidFee
+  let m3 ← classMsgs env ask' bid rB rQ net size
+  let rp ← refundPart env bid (Dec.lt execP bidP) bidP size gross bidFee rQ
+  pure ({ s with asks := putAsk s.asks askId ask', bids := putBid s.bids bidId rp.2 },
+        { msgs := m1 ++ m2 ++ m3 ++ rp.1,
+          attrs := [("action", "execute"), ("ask_id", askId), ("bid_id", bidId),
+                    ("base", bid.base.denom), ("quote", ask.quote), ("price", price),
+                    ("size", toString size), ("ask_fee", toString askFee),
+                    ("bid_fee", toString bidFee)] })
 
 /-- `check_fee_rate` -/
 def checkFeeRate (contains : Bool) (cur : Option FeeInfo) (newRate newAcct : Option String) :
@@ -451,12 +472,13 @@ def applyOverrides (env : Env) (info : Info) (approvers executors : Option (List
   let info := match bidAttrs with | some l => { info with bidAttrs := l } | none => info
   pure info
 
-def modifyContract (env : Env) (s : State) (sender : String)
+def modifyContract (env : Env) (s : State) (sender : String) (funds : List Coin)
     (approvers executors : Option (List String))
     (askRate askAcct bidRate bidAcct : Option String) (askAttrs bidAttrs : Option (List String)) :
     Res (State × Response) := do
   let info := s.info
   guardR (memS sender info.executors) .unauthorized
+  guardR funds.isEmpty .modifyWithFunds
   let hasAsk := !s.asks.isEmpty
   guardR (!(hasAsk && askAttrs.isSome)) .invalidFields
   checkFeeRate hasAsk info.askFee askRate askAcct
@@ -486,7 +508,7 @@ def execute (env : Env) (s : State) (c : Call) : Res (State × Response) := do
   | .expireBid id => reverseBid env s c.sender c.funds id "expire_bid" none
   | .rejectAsk id sz => reverseAsk env s c.sender c.funds id "reject_ask" sz
   | .rejectBid id sz => reverseBid env s c.sender c.funds id "reject_bid" sz
-  | .modify ap ex ar aa br ba att btt => modifyContract env s c.sender ap ex ar aa br ba att btt
+  | .modify ap ex ar aa br ba att btt => modifyContract env s c.sender c.funds ap ex ar aa br ba att btt
 
 /-! ### migrate -/
 
